@@ -16,7 +16,7 @@ META = dict(
     text="for every exchange of the corpus the controller's A, M1 and K are compared byte-for-byte with a reference "
     "SRP-6a/3072/SHA-512 implementation (validated against RFC 5054 app. B), the reference accessory must accept M1, "
     "the controller must accept M2 and reject each of its 512 single-bit flips, and a controller with code i is rejected "
-    "by an accessory with code j != i; the corpus contains mined inputs whose A, B, S, K, M1, M2, u, x or inner credentials hash H(I:P) start with 0x00; every mined exchange is also run through the real pair-setup generators M1..M6 against the reference accessory (the byte-level *use* of K) Also: every order / repetition of the two SRP setters; the proofs a non-conformant accessory computes (leading zeros of A / M1 / K dropped) must be rejected.",
+    "by an accessory with code j != i; the corpus contains mined inputs whose A, B, S, K, M1, M2, u, x or inner credentials hash H(I:P) start with 0x00; every mined exchange is also run through the real pair-setup generators M1..M6 against the reference accessory (the byte-level *use* of K) Also: every order / repetition of the two SRP setters; the proofs a non-conformant accessory computes (leading zeros of A / M1 / K dropped) must be rejected. Also: ephemeral secrets of full width and wider (N-5, N-1, N, N+k, 2^3072-1, 2^4000+7) on both sides; every order of the getters for S, K, M1 and the verdict on the accessory's proof.",
     note="for-all over 2^128 secrets is not enumerable: coverage is the corpus (every boundary the code or the spec "
     "distinguishes); reference SRP and hashlib trusted; PAD convention as stated in the property anchors",
     design_ref="DESIGN.md §4 C02",
